@@ -36,7 +36,7 @@ type Op struct {
 	Gs   []string `json:"gs,omitempty"`  // graphemes inserted / pasted / assigned
 	I    int      `json:"i,omitempty"`   // goto target
 	W    int      `json:"w,omitempty"`   // resize: new window width
-	Base string   `json:",omitempty"`    // insjoin: the cluster the key text joins
+	Base string   `json:",omitempty"`    // insjoin, pastejoin: the cluster the first grapheme of Gs joins
 }
 
 type Scn struct {
@@ -101,6 +101,41 @@ func TextKey(g string, et vaxis.EventType) vaxis.Key {
 	return k
 }
 
+// IsCtl: g is a single character that cannot be displayed (C0 control or DEL).
+func IsCtl(g string) bool {
+	r := []rune(g)
+	return len(r) == 1 && (r[0] < 0x20 || r[0] == 0x7f)
+}
+
+// PastedKey is the key event the input decoder delivers for the grapheme g of a
+// bracketed paste: printable text as a key with Text; a C0 byte as the key that
+// byte encodes on a legacy terminal (CR = Enter, 0x01 = Ctrl+a, 0x08 and DEL =
+// BackSpace, ...) without Text; in both cases EventType = EventPaste.
+func PastedKey(g string) vaxis.Key {
+	if !IsCtl(g) {
+		return TextKey(g, vaxis.EventPaste)
+	}
+	r := []rune(g)[0]
+	k := vaxis.Key{EventType: vaxis.EventPaste}
+	switch {
+	case r == 0x08 || r == 0x7f:
+		k.Keycode = vaxis.KeyBackspace
+	case r == 0x09:
+		k.Keycode = vaxis.KeyTab
+	case r == 0x0d:
+		k.Keycode = vaxis.KeyEnter
+	case r == 0x1b:
+		k.Keycode = vaxis.KeyEsc
+	case r == 0:
+		k.Keycode, k.Modifiers = '@', vaxis.ModCtrl
+	case r <= 0x1a:
+		k.Keycode, k.Modifiers = r+0x60, vaxis.ModCtrl
+	default:
+		k.Keycode, k.Modifiers = r+0x40, vaxis.ModCtrl
+	}
+	return k
+}
+
 // Bindings: abstract command -> the bindings each widget documents for it.
 var Bindings = map[string]map[string][]string{
 	"textfield": {
@@ -129,6 +164,9 @@ func segment(s string) []string {
 }
 
 func classOf(g string) int {
+	if IsCtl(g) {
+		return 3
+	}
 	allsp := true
 	for _, r := range g {
 		if !unicode.IsSpace(r) {
@@ -281,12 +319,18 @@ func Run(c *Ctx, wk *Worker, sc *Scn) (evs []trace.Ev, note string) {
 			evsIn = append(evsIn, TextKey(gs[0], vaxis.EventPress))
 			ev["gs"] = loc.ids([]string{op.Base + gs[0]})
 			ev["i"] = loc.id(op.Base)
-		case op.Via == "key" && op.K == "paste":
+		case op.Via == "key" && (op.K == "paste" || op.K == "pastectl" || op.K == "pastejoin"):
+			// pastectl: the pasted text contains control characters; pastejoin: its
+			// first grapheme joins the cluster left of the cursor (op.Base)
 			evsIn = append(evsIn, vaxis.PasteStartEvent{})
 			for _, g := range gs {
-				evsIn = append(evsIn, TextKey(g, vaxis.EventPaste))
+				evsIn = append(evsIn, PastedKey(g))
 			}
 			evsIn = append(evsIn, vaxis.PasteEndEvent{})
+			if op.K == "pastejoin" {
+				ev["gs"] = loc.ids(append([]string{op.Base + gs[0]}, gs[1:]...))
+				ev["i"] = loc.id(op.Base)
+			}
 		case op.Via == "key" && op.K == "noop" && op.Key == "release":
 			k := TextKey("a", vaxis.EventRelease)
 			evsIn = append(evsIn, k)
